@@ -40,6 +40,7 @@ def configs(tier):
     out.append(dict(key="real-components,n=2,unitary=2,same-labels", kind="real", n=2, k=2, same=True, cost=300))
     out.append(dict(key="ratio,gamma_cat", kind="ratio", meth="gamma_cat", cost=20))
     out.append(dict(key="ratio,gamma_k", kind="ratio", meth="gamma_k", cost=20))
+    out.append(dict(key="ratio,sequence gamma_k(x), gamma_k(y), gamma_cat on one result", kind="ratio", meth="sequence", cost=60))
     out.append(dict(key="refused-for-non-combined", kind="refuse", cost=5))
     return out
 
@@ -194,9 +195,11 @@ def harness(cfg, ns):
 
         def spy(self, dissimilarity, category):
             cats_seen.append(category)
-            key = id(self)
+            key = id(self) if meth != "sequence" else (id(self), category)
             if key not in vals:
                 vals[key] = ctx.fresh("gk!", lo=0)
+                if meth == "sequence":
+                    ctx.solver.add(vals[key].e > 0)
             return vals[key]
         al.Alignment.gamma_k_disorder = spy
         try:
@@ -207,10 +210,23 @@ def harness(cfg, ns):
                 pass
             d = D()
             res = co.GammaResults(best_alignment=best, chance_alignments=chance, dissimilarity=d)
-            got = res.gamma_cat if meth == "gamma_cat" else res.gamma_k("x")
+            if meth == "sequence":
+                seq = [("x", res.gamma_k("x")), ("y", res.gamma_k("y")), (None, res.gamma_cat), ("x", res.gamma_k("x"))]
+                got = None
+            else:
+                got = res.gamma_cat if meth == "gamma_cat" else res.gamma_k("x")
         finally:
             co.ThreadPoolExecutor = saved
             al.Alignment.gamma_k_disorder = saved_gk
+        if meth == "sequence":
+            rzs = lambda m: dict(kind="ratio", meth="sequence", vals={f"{i}|{c}": common.frs(mval(m, v)) for (i, c), v in   # noqa: E731
+                                                                      [((([best] + chance).index(next(a for a in [best] + chance if id(a) == k[0])), k[1]), v) for k, v in vals.items()]})
+            o = []
+            for cat_, g in seq:
+                ob = vals[(id(best), cat_)]
+                mean = (vals[(id(chance[0]), cat_)] + vals[(id(chance[1]), cat_)] + vals[(id(chance[2]), cat_)]) / 3
+                o.append(Obl(f"each measure of the sequence uses its own category's disorders[{cat_}]", core.eq(g, 1 - ob / mean), rzs))
+            return o
         rz = lambda m: dict(kind="ratio", meth=meth, vals=[common.frs(mval(m, vals[id(x)])) if id(x) in vals else None for x in [best] + chance])   # noqa: E731
         obs = vals[id(best)]
         ch = [vals.get(id(x)) for x in chance]
@@ -283,6 +299,20 @@ def replay(case):
             return dict(reproduced=bool(bad), detail="; ".join(bad))
         from unittest import mock
         import pygamma_agreement.continuum as co
+        if case["meth"] == "sequence":
+            V = {(int(k.split("|")[0]), None if k.split("|")[1] == "None" else k.split("|")[1]): F(v) for k, v in case["vals"].items()}
+            best = Alignment([], None, disorder=1)
+            chance = [Alignment([], None, disorder=1) for _ in range(3)]
+            objs = [best] + chance
+            with mock.patch.object(Alignment, "gamma_k_disorder", lambda self, d, c: V[(objs.index(self), c)]):
+                res = co.GammaResults(best_alignment=best, chance_alignments=chance, dissimilarity=None)
+                seq = [("x", float(res.gamma_k("x"))), ("y", float(res.gamma_k("y"))), (None, float(res.gamma_cat)), ("x", float(res.gamma_k("x")))]
+            bad = []
+            for c_, g in seq:
+                want = 1 - V[(0, c_)] / (sum(V[(i, c_)] for i in (1, 2, 3)) / 3)
+                if abs(g - want) > 1e-6 * max(1, abs(want)):
+                    bad.append(f"measure for category {c_!r} in the sequence = {g}, expected {want}")
+            return dict(reproduced=bool(bad), detail="; ".join(bad[:2]))
         vals = [F(v) if v is not None else 1.0 for v in case["vals"]]
         best = Alignment([], None, disorder=1)
         chance = [Alignment([], None, disorder=1) for _ in range(3)]
